@@ -14,6 +14,12 @@ def main():
     ctx = core.Ctx("SETUP", "quick", 1)
     try:
         vh = ctx.vh_bin
+        # generated TLA+ data modules (AGL tables) must exist before the specifications are parsed
+        gen = subprocess.run([sys.executable, os.path.join(os.path.dirname(os.path.abspath(__file__)), "tools", "gen_agl.py")],
+                             capture_output=True, text=True)
+        if gen.returncode != 0:
+            print("[setup] gen_agl.py failed:", gen.stdout[-800:], gen.stderr[-800:])
+            return 2
         d = ctx.specdir()
         mods = sorted(os.path.basename(p) for p in glob.glob(os.path.join(d, "*.tla")))
         bad = []
